@@ -289,17 +289,24 @@ def check_C09(pid, tier, seed, verdict):
     run = V.run_harness(pid, "life", seed, tier, sp)
     res = V.run_trace(pid, "Trace_SessionLife.tla", "Trace_SessionLife.cfg", run["trace"])
     verdict.add_trace_result("life", res, run)
+    # the waiters behind the front-ends: application connections through SOCKS5 / HTTP whose session's TLS connection is cut
+    crun = V.run_harness(pid, "cut", seed, tier)
+    cres = V.run_trace(pid, "Trace_Share.tla", "Trace_Share.cfg", crun["trace"])
+    verdict.add_trace_result("cut", cres, crun)
     cnt = res["cnt"]
     V.log(f"[{pid}] trace: {cnt['scn']} scenarios, {cnt['final']} judged, {cnt['note']} without effect (cause did not fire), "
-          f"drift={cnt['drift']}, bad={len(res['bad'])}")
+          f"drift={cnt['drift']}, bad={len(res['bad'])}; front-ends: {cres['cnt']['cut']} application connections behind a cut "
+          f"session, bad={len(cres['bad'])}")
     cov = _cov(mcs, cnt["scn"], cnt["nontrivial"],
                "scenario = one real Session (client, client with monitor, server) with a blocked stream reader, a pending open "
                "(client) and a concurrent writer; one termination cause (owner close, clean EOF, read error, close_notify-like "
                "error, Alert frame, monitor timeout, write error at byte offsets 0/1/6/7/8/.. of the packet, blocked write + "
                "close) under every complete schedule of SessionLife.tla plus a systematic cause x role x offset x scheme sweep "
                "with the writer pre-empted at each scheduling point; then one hour of virtual time; non-trivial = scenarios in "
-               "which the cause fired and the final report was judged", V.sample_descrs(run["descr"]), True,
-               dict(behaviours_generated=len(g["scenarios"]), trace_events=res["lines"], event_counts=cnt))
+               "which the cause fired and the final report was judged; plus (real time) application connections (idle reader, "
+               "writer, half-closed) through the SOCKS5 / HTTP front-ends of a real Client whose TLS connection is cut: each must "
+               "be ended within 4 s", V.sample_descrs(run["descr"]), True,
+               dict(behaviours_generated=len(g["scenarios"]), trace_events=res["lines"], event_counts=cnt, cut_connections=cres["cnt"]["cut"]))
     return cov, ["'never blocks forever' is judged after one hour of virtual time on a paused-clock runtime",
                  "promptness is not measured, only completion"]
 
